@@ -13,9 +13,11 @@ from .wire import Reply, Renderer, parse_command, parse_string_line, OK, ERROR, 
 
 
 # fault kinds (value 0 = none)
-F_NONE, F_NO, F_BYE, F_SILENT, F_CLOSE, F_LOST_SILENT, F_LOST_CLOSE, F_TRUNC, F_RESET, F_LOST_RESET, F_DELAYED = range(11)
+(F_NONE, F_NO, F_BYE, F_SILENT, F_CLOSE, F_LOST_SILENT, F_LOST_CLOSE, F_TRUNC, F_RESET, F_LOST_RESET, F_DELAYED,
+ F_TRUNC_SILENT, F_TRUNC_RESET) = range(13)
 FAULT_NAMES = ("none", "NO", "BYE", "silence", "close", "applied+silence",
-               "applied+close", "truncated-reply+close", "reset", "applied+reset", "applied+reply-later-than-the-read-timeout")
+               "applied+close", "truncated-reply+close", "reset", "applied+reset", "applied+reply-later-than-the-read-timeout",
+               "truncated-reply+silence", "truncated-reply+reset")
 
 TEXT_POOL = [
     b"done", b"", b"quota exceeded", b'say "hi"', b"back\\slash", b'\\"', b"(NOTACODE) x",
@@ -481,11 +483,11 @@ class SimServer:
             for sg in conn.segments[seg_before:]:
                 sg.delay = 1
             rec.note = "reply delayed"
-        if fault in (F_LOST_SILENT, F_LOST_CLOSE, F_TRUNC, F_LOST_RESET):
+        if fault in (F_LOST_SILENT, F_LOST_CLOSE, F_TRUNC, F_LOST_RESET, F_TRUNC_SILENT, F_TRUNC_RESET):
             # the command was applied; withdraw (part of) the reply
             segs = conn.segments[seg_before:]
             del conn.segments[seg_before:]
-            if fault == F_TRUNC and segs:
+            if fault in (F_TRUNC, F_TRUNC_SILENT, F_TRUNC_RESET) and segs:
                 data = b"".join(s.data for s in segs)
                 with self.ch.abs_scope(scope):
                     cut = self.ch.srv.int("trunc", len(data))
@@ -494,11 +496,11 @@ class SimServer:
             else:
                 rec.raw = b""
             rec.note = "reply lost"
-            if fault == F_LOST_SILENT:
+            if fault in (F_LOST_SILENT, F_TRUNC_SILENT):
                 st.closed = True
             else:
                 self._close(conn)
-                if fault == F_LOST_RESET:
+                if fault in (F_LOST_RESET, F_TRUNC_RESET):
                     conn.reset = True
 
     # individual verbs -------------------------------------------------------
